@@ -131,7 +131,7 @@ pub fn handle_step(rng: &mut Rng, sess: &Session, slot: usize, cfg: &HCfg) -> St
         let n = if rng.chance(1, 2) { gen::pick_size(rng, cfg.max_len) } else { (pick_off(rng) + rng.below(200)).min(cfg.max_len) };
         if cfg.extreme_seeks && rng.chance(1, 25) {
             // as extreme as the seek arguments
-            return Step::HSetLen { slot, n: *rng.pick(&[u64::MAX, u64::MAX - 1, u64::MAX - 511, u64::MAX - 4095, 1 << 63, (1 << 63) - 1, 1 << 45, (1 << 45) + 4097]) };
+            return Step::HSetLen { slot, n: *rng.pick(&[u64::MAX, u64::MAX - 1, u64::MAX - 511, u64::MAX - 4095, 1 << 63, (1 << 63) - 1, 1 << 45, (1 << 45) + 4097, 1 << 32, (1 << 32) + 5, 5 << 30, 1 << 40, (1 << 41) - 3]) };
         }
         Step::HSetLen { slot, n }
     } else if w < 92 {
